@@ -85,8 +85,10 @@ def finish(run: Run, seed: int = 0, selftest: Optional[dict] = None) -> int:
     per_rule: Dict[str, int] = {}
     for o in run.obligations:
         per_rule[o.rule] = per_rule.get(o.rule, 0) + 1
+    failing_rules = {o.rule for o in run.obligations if not o.ok}
     for rid, fl in run.floors.items():
-        if per_rule.get(rid, 0) < fl:
+        # a rule that already reports an undischarged obligation has not gone blind: it stopped early at the violation
+        if per_rule.get(rid, 0) < fl and rid not in failing_rules:
             raise AnalysisError(f"rule {rid} matched {per_rule.get(rid, 0)} instance(s), below its floor {fl}: "
                                 f"the rule has gone blind on this tree (anchors moved?)")
 
